@@ -158,9 +158,10 @@ theorem C10_fold_stable (s : St) (db : DB) (g : GDir) (hdb : s.db = some db) (hi
     exact ⟨v, e2, e1⟩
 
 /-- **C10_snapshot_transcript** (the final statement).  Create an iterator in a state satisfying
-    `SnapOK` (e.g. the engine invariant), then run ANY interleaving `evs` of iterator calls (`Rewind / Next / Seek`) and
-    database writes (plain, batch, `Merge`, `Backup`).  The whole transcript — `Valid`, `Key` and the `Value`
-    read through the captured position in whatever state the database is in at that moment,
+    `SnapOK` (e.g. the engine invariant), then run ANY interleaving `evs` of iterator calls
+    (`Rewind / Next / Seek`) and database writes (plain, batch, `Merge`, `Backup`).  The whole
+    transcript — `Valid`, `Key` and the `Value` read through the captured position in whatever
+    state the database is in at that moment,
     observed before the first and after every event — equals the transcript of the abstract cursor
     over the *creation-time* mapping `fold s db` (which lists each key with `.val v`,
     `absGet s db k = some v`), on which writes have no effect.  Side condition: the iterator calls of
